@@ -157,9 +157,9 @@ pub fn checks() -> Vec<Check> {
         v.push(Check {
             prop,
             parts: if prop == "C05" {
-                vec![Part { name: gm::DIRTY_GM.name(), xen: false, quick: 500_000, thorough: 20_000_000 }, Part { name: mem::DIRTY_SLICE.name(), xen: false, quick: 500_000, thorough: 20_000_000 }, Part { name: mem::DIRTY_RACE.name(), xen: false, quick: 500_000, thorough: 20_000_000 }]
+                vec![Part { name: gm::DIRTY_GM.name(), xen: false, quick: 500_000, thorough: 20_000_000 }, Part { name: mem::DIRTY_SLICE.name(), xen: false, quick: 500_000, thorough: 20_000_000 }, Part { name: mem::DIRTY_RACE.name(), xen: false, quick: 500_000, thorough: 20_000_000 }, Part { name: "S-xen", xen: true, quick: 200_000, thorough: 8_000_000 }]
             } else {
-                vec![Part { name: gm::DIRTY_GM.name(), xen: false, quick: 500_000, thorough: 20_000_000 }, Part { name: mem::DIRTY_SLICE.name(), xen: false, quick: 500_000, thorough: 20_000_000 }, Part { name: mem::DIRTY_RACE.name(), xen: false, quick: 500_000, thorough: 20_000_000 }]
+                vec![Part { name: gm::DIRTY_GM.name(), xen: false, quick: 500_000, thorough: 20_000_000 }, Part { name: mem::DIRTY_SLICE.name(), xen: false, quick: 500_000, thorough: 20_000_000 }, Part { name: mem::DIRTY_RACE.name(), xen: false, quick: 500_000, thorough: 20_000_000 }, Part { name: "S-xen", xen: true, quick: 200_000, thorough: 8_000_000 }]
             },
             rule: if prop == "C05" {
                 "runs are seeded histories of up to 10 write-type and read-type operations at guest-memory, region and derived-slice level (written data is the complement of the current contents), descriptor reads with injected syscall results, scripted readers that fail part-way, interleaved with bitmap resets/harvests, on 1-3 regions with real AtomicBitmaps (plain or Option) of page sizes 1, 2, 3, 16, 64, 4096 or larger than the region; oracle: every byte whose value changed is dirty in the owning region's bitmap, and a failed descriptor read leaves its whole target dirty; third part S-dirty/race: a writer coroutine (every tracked write entry point, descriptor reads that block in read(2)) against a harvester coroutine (get_and_reset + copy of the reported pages) switched at every guest access, bitmap word operation and blocked read, oracle = the copy assembled from the harvests equals guest memory after a last harvest; distinct = distinct event-log hash; non-trivial = at least one operation succeeded and one was rejected or cut off"
